@@ -1,17 +1,17 @@
 CONSTANTS
   Mutant = "none"
-  Lvals = {"x", "class", "$resp"}
-  LoopVals = {"y", "x"}
+  Lvals = {"x", "class"}
+  LoopVals = {"y"}
   Roots = {"$resp", "x"}
   RootSels = {"none"}
-  Attrs1 = {"items", "title", "by_name", "nope"}
+  Attrs1 = {"items", "title", "by_name"}
   Sels1 = {"none", "idx"}
   Attrs2 = {"name"}
   Len2 = 1
   Kinds = {"define", "print", "write_file", "invalid", "loop"}
   LoopForms = {{"collection", "variable", "body"}, {"map", "key", "value", "body"}, {"map", "body"}, {"map", "value", "body"}, {"collection", "body"}}
-  ReqKeys = {"name/p=x", "name", "parent%project", "parent%shelf"}
-  MaxReq = 2
+  ReqKeys = {"name/p=x"}
+  MaxReq = 1
   MaxLen = 2
   MaxDepth = 2
 SPECIFICATION SpecT
@@ -28,4 +28,3 @@ INVARIANT Inv_FormatArity
 INVARIANT Inv_NoInvalid
 INVARIANT Inv_ErrSound
 INVARIANT Inv_Request
-PROPERTY Live
